@@ -124,6 +124,7 @@ def make(items):
 
 
 _fresh_cache = {}
+_DOMAIN = {}   # AST id of a character variable -> sorted list of its possible codes
 
 
 def fresh(name, n, alphabet=None, lo=32, hi=126):
@@ -140,6 +141,7 @@ def fresh(name, n, alphabet=None, lo=32, hi=126):
             else:
                 cons = [v >= lo, v <= hi]
             ent = _fresh_cache[key] = (v, cons)
+            _DOMAIN[v.get_id()] = sorted(set(map(ord, alphabet))) if alphabet is not None else list(range(lo, hi + 1))
         v, cons = ent
         sp.inputs[f"{name}_{i}"] = v
         for c in cons:
@@ -181,7 +183,7 @@ class SymStr(str):
         return o
 
     def __getattribute__(self, name):
-        if name in _ALLOWED or name in ("_h", "_is", "_match_at"):
+        if name in _ALLOWED or name in ("_h", "_is", "_match_at", "_nsym", "_concretize_by_forking"):
             return object.__getattribute__(self, name)
         if name.startswith("__") and name.endswith("__"):
             # unknown dunder: behave as missing (hasattr probes), but never fall to str's
@@ -198,7 +200,32 @@ class SymStr(str):
     def __bool__(self):
         return len(self.items) != 0
 
+    def _nsym(self):
+        return sum(not isinstance(it, int) for it in self.items)
+
+    def _concretize_by_forking(self):
+        """Pin every symbolic character to one value of its domain, forking over the feasible
+        values in increasing order (sound: every alternative is explored on another path)."""
+        out = []
+        for it in self.items:
+            if isinstance(it, int):
+                out.append(it)
+                continue
+            dom = _DOMAIN.get(it.get_id()) or range(0, 128)
+            for v in dom:
+                if self._is(_eqc(it, v)):
+                    out.append(v)
+                    break
+            else:
+                raise core.PathAbort("no feasible character value")
+        return "".join(chr(c) for c in out)
+
     def __hash__(self):
+        # short strings (e.g. one character used as a dict key by the code under test) are pinned
+        # by forking, so that the hash is the real one; long ones only get an identity hash inside
+        # the scope that explicitly allows it (lru_cache keys), never silently
+        if self._nsym() <= 2 and core.space() is not None:
+            return hash(self._concretize_by_forking())
         if _hash_ok[0]:
             return self._h
         raise Unsupported("hash(SymStr)")
